@@ -155,6 +155,18 @@ fn check_pair(a: &Item, b: &Item, st: &mut Stats, mode: Count) {
                 if canon.len() > 1 {
                     ok &= !f(&canon[..canon.len() - 1]);
                 }
+                // other letter cases of the same text are different strings
+                for alt in [canon.to_ascii_lowercase(), canon.to_ascii_uppercase(), {
+                    let mut t = canon.to_ascii_lowercase();
+                    if let Some(c) = t.get_mut(0..1) {
+                        c.make_ascii_uppercase();
+                    }
+                    t
+                }] {
+                    if alt != canon {
+                        ok &= !f(&alt);
+                    }
+                }
                 texts.push((canon.to_string(), ok));
             };
             let l = ia.language;
